@@ -84,6 +84,7 @@ func (w *ckWorld) viol(mon, sig, what string, hist []string) {
 
 type ckWorld struct {
 	seen map[string]bool
+	ckEntry // entry point of delegations / undelegations (dom_conskeys_entry.go)
 	*World
 	env        *Env
 	hist       []string
@@ -345,6 +346,8 @@ func (w *ckWorld) monitors(ctx sdk.Context, phase string, pfx string) {
 		}
 	}
 	w.tracks = keep
+	// ---- C16: requests that came through the delegation precompile stay pending and held (dom_conskeys_entry.go)
+	w.entryWatch(ctx)
 	// ---- C16: nothing is left behind in a slot whose epoch has ended; pending lists are empty
 	// outside the closing block
 	env.Eval("C16.drain")
@@ -446,15 +449,17 @@ func (w *ckWorld) doUndelegate(op int, amt int64, pfx string) string {
 	fin := c.App.StakingKeeper.GetOperatorOptOutFinishEpoch(ctx, w.Ops[op].Acc)
 	isVal := w.InValSet(ctx, w.CurKey(ctx, op)) || w.InValSet(ctx, w.PrevKey(ctx, op))
 	slot := w.DogfoodEpoch(ctx) + int64(c.App.StakingKeeper.GetDogfoodParams(ctx).EpochsUntilUnbonded)
-	key, err := w.Undelegate(w.Ops[op].Eth, op, sdkmath.NewInt(amt))
+	key, via, err := w.undelegateVia(w.Ops[op].Eth, op, sdkmath.NewInt(amt))
 	out := errClass(err)
+	w.env.Outcome("entry:undelegate.via-" + via + "=" + out)
 	if out != "ok" && out != "panic" {
-		w.hist = append(w.hist, fmt.Sprintf("# undelegate op=%d rejected by x/delegation", op))
+		w.hist = append(w.hist, fmt.Sprintf("# undelegate op=%d via=%s rejected by x/delegation", op, via))
 		return out
 	}
 	rec := len(w.recs)
 	if out == "ok" {
 		w.recs = append(w.recs, key)
+		w.recVia = append(w.recVia, via)
 	}
 	w.env.Eval("C16.hold")
 	if out == "panic" {
@@ -481,6 +486,7 @@ func (w *ckWorld) doUndelegate(op int, amt int64, pfx string) string {
 				w.viol("C16.hold", pfx+"held-after-optout-finished", fmt.Sprintf("undelegation from operator %d in the block finishing its opt-out is held (hold=%d)", op, hc), w.hist)
 			}
 		case removing:
+			w.entryJudge(rec, op, via, "optout", fin, hc, me, hasM)
 			if hc != 1 || !hasM || me != fin {
 				w.viol("C16.hold", pfx+"optout-maturity", fmt.Sprintf("undelegation from opting-out operator %d: hold=%d maturity=%d(%v), opt-out finishes at %d", op, hc, me, hasM, fin), w.hist)
 			} else {
@@ -491,6 +497,7 @@ func (w *ckWorld) doUndelegate(op int, amt int64, pfx string) string {
 				w.viol("C16.hold", pfx+"held-but-not-validator", fmt.Sprintf("undelegation from operator %d (keys not in the validator set) is held", op), w.hist)
 			}
 		default:
+			w.entryJudge(rec, op, via, "validator", slot, hc, me, hasM)
 			if hc != 1 || !hasM || me != slot {
 				w.viol("C16.hold", pfx+"not-held", fmt.Sprintf("undelegation from validating operator %d: hold=%d maturity=%d(%v) want epoch %d", op, hc, me, hasM, slot), w.hist)
 			} else {
@@ -498,7 +505,7 @@ func (w *ckWorld) doUndelegate(op int, amt int64, pfx string) string {
 			}
 		}
 	}
-	w.emit(fmt.Sprintf("ck.undel %d %d", op, rec), out)
+	w.emit(fmt.Sprintf("ck.undel %d %d %s", op, rec, via), out)
 	return out
 }
 
@@ -575,7 +582,9 @@ func (w *ckWorld) doRegister(op int, fund int64) {
 	}
 	w.emit(fmt.Sprintf("ck.register %d", op), "ok")
 	if fund > 0 {
-		_ = w.DepositDelegate(w.Ops[op].Eth, op, sdkmath.NewInt(fund), true)
+		via, err := w.fundVia(w.Ops[op].Eth, op, sdkmath.NewInt(fund), true)
+		w.env.Outcome("entry:fund.via-" + via + "=" + errClass(err))
+		w.hist = append(w.hist, fmt.Sprintf("# fund op=%d amount=%d (deposit, self-delegation, association) via=%s: %s", op, fund, via, errClass(err)))
 	}
 }
 
@@ -599,6 +608,7 @@ func domConsKeys(env *Env) error {
 		scenarioOldKeySlash(env)
 	}
 	scenarioJailCycle(env)
+	scenarioF16b(env) // dom_conskeys_entry.go
 	for hi := 0; hi < n; hi++ {
 		cfg := DefaultCfg(env.Report.Seed*1000 + uint64(hi))
 		nGen := rng.Range(1, 3)
